@@ -17,6 +17,7 @@ FAMILIES = {
     "pressure": ["Pascals", "Bars"],
     "info": ["Bits", "Bytes"],
     "ratio": ["Unos", "Percent"],
+    "temperature": ["Kelvins", "Celsius", "Fahrenheit"],
 }
 PREF = ["Kilo", "Milli", "Centi", "Micro", "Mega", "Kibi", "Nano", "Deci"]
 REPS = ["int8_t", "uint16_t", "int32_t", "int64_t", "uint64_t", "float", "double"]
@@ -44,7 +45,17 @@ def case(draw):
     irr = draw(st.integers(0, 9)) == 0
     n = draw(st.integers(2, 4))
     els = [draw(element(fam, irr)) for _ in range(n)]
-    mode = draw(st.sampled_from(["plain", "plain", "equal_to_g", "dup"]))
+    mode = draw(st.sampled_from(["plain", "plain", "coincide", "dup"]))
+    if mode == "coincide" and not irr and len(FAMILIES[fam]) >= 2:
+        # two anonymous scalings of DIFFERENT library units that coincide in size (distinct types, quantity-equivalent), fine enough to be the common unit
+        a, b = draw(st.permutations(FAMILIES[fam]))[:2]
+        ra = model.mag_fraction(model.mmul(TABLE[a].mag, TABLE[b].mag, -1)) if model.mag_is_rational(model.mmul(TABLE[a].mag, TABLE[b].mag, -1)) else None
+        if ra is not None:
+            k = draw(st.sampled_from([12, 36, 1000, 7, 60]))
+            nb = ra * F(1, k)
+            els[0] = {"k": "anon", "n": a, "num": 1, "den": k, "pi": [0, 1]}
+            if nb.numerator < 2 ** 62 and nb.denominator < 2 ** 62:
+                els[1] = {"k": "anon", "n": b, "num": nb.numerator, "den": nb.denominator, "pi": [0, 1]}
     return {"fam": fam, "els": els, "mode": mode, "r1": draw(st.sampled_from(REPS)), "r2": draw(st.sampled_from(REPS)), "pick": draw(st.integers(0, 3))}
 
 
@@ -103,7 +114,7 @@ def prepare(c):
     seen = {}
     for i, e in enumerate(els):
         if e["k"] in ("lib", "pre", "named"):
-            key = model.mag_key(mags[i])
+            key = (model.mag_key(mags[i]), str(TABLE[e["n"]].origin))   # documented limitation: identical dimension, magnitude AND origin
             sp = json.dumps(e, sort_keys=True)
             if key in seen and seen[key][0] != sp:
                 els[i] = json.loads(seen[key][0]); mags[i] = el_model(els[i]); ntw += 1
@@ -217,8 +228,11 @@ def run(ctx):
         for a in names[1:]:
             ratio = model.mag_fraction(model.mmul(TABLE[a].mag, TABLE[names[0]].mag, -1))
             grid.append({"fam": fam, "els": [{"k": "anon", "n": names[0], "num": ratio.numerator, "den": ratio.denominator, "pi": [0, 1]}, {"k": "lib", "n": a}], "mode": "plain", "r1": "int32_t", "r2": "int32_t", "pick": 0})
+    for a, b, k, nb in [("Feet", "Yards", 12, F(1, 36)), ("Inches", "Feet", 5, F(1, 60)), ("Seconds", "Minutes", 7, F(1, 420)), ("Bits", "Bytes", 3, F(1, 24))]:
+        grid.append({"fam": "length", "els": [{"k": "anon", "n": a, "num": 1, "den": k, "pi": [0, 1]}, {"k": "anon", "n": b, "num": nb.numerator, "den": nb.denominator, "pi": [0, 1]}, {"k": "lib", "n": a}], "mode": "plain", "r1": "int32_t", "r2": "int64_t", "pick": 0})
+        grid.append({"fam": "length", "els": [{"k": "anon", "n": b, "num": nb.numerator, "den": nb.denominator, "pi": [0, 1]}, {"k": "anon", "n": a, "num": 1, "den": k, "pi": [0, 1]}], "mode": "plain", "r1": "double", "r2": "int8_t", "pick": 1})
     if quick:
-        grid = [g for j, g in enumerate(grid) if (j + ctx.seed) % 2 == 0 or g["els"][0]["k"] == "anon"]
+        grid = [g for j, g in enumerate(grid) if (j + ctx.seed) % 2 == 0 or g["els"][0]["k"] == "anon" or g["fam"] == "temperature"]
     ctx.cov["grid_cases"] = len(grid)
     for c, v in zip(grid, judge(grid)):
         if v is not None:
